@@ -814,7 +814,7 @@ impl<'a> CompilerState<'a> {
                 let body = self.compile_statement(p.next().unwrap())?;
                 let else_body = match p.next() {
                     None => None,
-                    Some(px) => Some(Box::new(self.compile_statement(px)?)),
+                    Some(_else_keyword) => Some(Box::new(self.compile_statement(p.next().unwrap())?)),
                 };
                 Ok(StatementLoc {
                     pos,
@@ -915,6 +915,7 @@ impl<'a> CompilerState<'a> {
             }),
             Rule::return_statement => {
                 let mut p = pair.into_inner();
+                p.next(); // The keyword
                 let i = p.next().unwrap();
                 let return_value = match i.as_rule() {
                     Rule::nothing => Expr::Nothing,
@@ -986,7 +987,7 @@ impl<'a> CompilerState<'a> {
                 })
             }
             Rule::goto_statement => {
-                let s = pair.into_inner().next().unwrap().as_str();
+                let s = pair.into_inner().nth(1).unwrap().as_str();
                 Ok(StatementLoc {
                     pos,
                     label: None,
